@@ -1,6 +1,7 @@
 package rules
 
 import (
+	"os"
 	"go/token"
 	"go/types"
 	"sort"
@@ -163,6 +164,26 @@ func c18Sites(c *Ctx) []panicSite {
 						}
 					}
 				}
+				// dereference of a pointer read from a field (or from an element of a slice/map field) of a module type that
+				// is decoded from input somewhere: whoever receives such a value (a request's Validate, an FSM callback)
+				// sees nil where the document said null
+				if xp := ssax.Path(x.X); !strings.HasPrefix(xp, "json(") {
+					if _, isPtr := x.X.Type().Underlying().(*types.Pointer); isPtr {
+						if owner, fld := wireSource(c, f, x.X); owner != "" {
+							s := mk("wire-deref", in, owner+"."+fld+"->"+ssax.FieldOf(x).Name())
+							s.Status, s.Why = proveNonNil(f, x.X, in)
+							if s.Status != "proved" && provedByValidationLoop(f, x.X, in) {
+								s.Status, s.Why = "proved", "behind a loop over the same list that rejects a nil element"
+							}
+							if s.Status != "proved" && provedByValidate(c, f, x.X, in) {
+								s.Status, s.Why = "proved", "behind request.Validate() == nil, and Validate rejects a nil element of that list before it returns nil"
+							}
+							if s.Status != "proved" {
+								s.Why = "the pointer is read from " + owner + "." + fld + ", a type decoded from input (a JSON null leaves it nil), and is dereferenced without a nil check"
+							}
+						}
+					}
+				}
 				// dereference of one of the three per-machine payload pointers (nil until their machine is entered)
 				if xp := ssax.Path(x.X); isPayloadPtr(xp) {
 					if _, isPtr := x.X.Type().Underlying().(*types.Pointer); isPtr {
@@ -175,6 +196,20 @@ func c18Sites(c *Ctx) []panicSite {
 				if strings.HasSuffix(id, "fsm/fsm.(FSM).MustCopyWithState") || strings.HasSuffix(id, "fsm/fsm_pool.Init") || strings.HasSuffix(id, "fsm/fsm.MustNewFSM") {
 					s := mk("must-call", in, lastSeg(shortID(id)))
 					s.Status, s.Why = "unproved", "callee panics on invalid input"
+				}
+				// library calls that panic when an argument has the wrong length
+				for _, pc := range c18LenPreconds {
+					if id == pc.callee && pc.arg < len(x.Common().Args) {
+						a := x.Common().Args[pc.arg]
+						s := mk("arg-length", in, lastSeg(id)+"("+trimPath(npath(a))+")")
+						s.Status, s.Why = proveLenEq(f, a, pc.want, in)
+						if s.Status != "proved" && pc.ownStore != "" && strings.Contains(npath(a), pc.ownStore) {
+							s.Status, s.Why = "proved", "the argument is read from the node's own key store (written by the node's key generation), not from input"
+						}
+						if s.Status != "proved" {
+							s.Why = sprintf("%s panics unless len(argument %d) == %d; the value %s is not tested for that length on every path", id, pc.arg, pc.want, trimPath(npath(a)))
+						}
+					}
 				}
 				if id == "encoding/json.Unmarshal" && len(x.Common().Args) == 2 {
 					c18DecodedEscapes(c, f, x, mk)
@@ -197,7 +232,11 @@ func provedByValidationLoop(f *ssa.Function, v ssa.Value, at ssa.Instruction) bo
 	if i < 0 || !strings.HasSuffix(vp, "]") {
 		return false
 	}
-	list := vp[:i]
+	return nilRejectingLoopBefore(f, vp[:i], at)
+}
+
+// nilRejectingLoopBefore: `at` lies behind the normal exit of a loop over `list` that leaves on a nil element.
+func nilRejectingLoopBefore(f *ssa.Function, list string, at ssa.Instruction) bool {
 	for _, cd := range ssax.Conds(f) {
 		if cd.Op != token.EQL && cd.Op != token.NEQ {
 			continue
@@ -969,4 +1008,222 @@ func proveMapElem(f *ssa.Function, lk *ssa.Lookup, at ssa.Instruction) (string, 
 		return "proved", "the key was stored with a freshly allocated element on every path to the use"
 	}
 	return "unproved", "a missing key yields a nil pointer that is dereferenced"
+}
+
+
+// c18WireTypes: the module's named struct types that some input-reachable json.Unmarshal decodes into (directly or nested).
+func c18WireTypes(c *Ctx) map[*types.TypeName]bool {
+	if c.c18wire != nil {
+		return c.c18wire
+	}
+	out := map[*types.TypeName]bool{}
+	var add func(t types.Type, d int)
+	add = func(t types.Type, d int) {
+		if d > 8 {
+			return
+		}
+		switch x := t.(type) {
+		case *types.Pointer:
+			add(x.Elem(), d+1)
+		case *types.Slice:
+			add(x.Elem(), d+1)
+		case *types.Array:
+			add(x.Elem(), d+1)
+		case *types.Map:
+			add(x.Elem(), d+1)
+		case *types.Named:
+			st, ok := x.Underlying().(*types.Struct)
+			if !ok {
+				add(x.Underlying(), d+1)
+				return
+			}
+			if x.Obj().Pkg() == nil || !strings.HasPrefix(x.Obj().Pkg().Path(), load.Module) || out[x.Obj()] {
+				return
+			}
+			out[x.Obj()] = true
+			for i := 0; i < st.NumFields(); i++ {
+				if st.Field(i).Exported() {
+					add(st.Field(i).Type(), d+1)
+				}
+			}
+		}
+	}
+	for _, f := range c18Scope(c) {
+		for _, call := range ssax.CallsTo(f, "encoding/json.Unmarshal") {
+			a := call.Common().Args
+			if len(a) != 2 {
+				continue
+			}
+			v := a[1]
+			if mi, ok := v.(*ssa.MakeInterface); ok {
+				v = mi.X
+			}
+			// only what is decoded from input: a board message's Data, an operation's Payload, a file or a broker record
+			// (what the node reads back from its own store was written by the node)
+			src := npath(a[0])
+			if strings.Contains(src, ".Get(") || strings.Contains(src, ".GetOrError(") {
+				continue
+			}
+			if !(strings.Contains(src, "message.Data") || strings.Contains(src, ".Payload") || strings.Contains(src, "ReadFile(") || strings.Contains(src, "ReadMessage(") || strings.HasPrefix(src, "json(")) {
+				continue
+			}
+			if os.Getenv("DCVERIF_DEBUG_WIRE") != "" {
+				println("WIRE", shortFn(f), npath(a[0]), v.Type().String())
+			}
+			add(v.Type(), 0)
+		}
+	}
+	c.c18wire = out
+	return out
+}
+
+// wireSource: the pointer v was loaded from field F of a wire type T (or from an element of the slice/map held in F);
+// returns ("T", "F").
+func wireSource(c *Ctx, f *ssa.Function, v ssa.Value) (string, string) {
+	v = ssax.Resolve(v)
+	var addr ssa.Value
+	switch x := v.(type) {
+	case *ssa.UnOp:
+		if x.Op != token.MUL {
+			return "", ""
+		}
+		addr = x.X
+	case *ssa.Lookup:
+		addr = nil
+		if ld, ok := ssax.Resolve(x.X).(*ssa.UnOp); ok && ld.Op == token.MUL {
+			addr = ld.X
+		}
+	case *ssa.Extract:
+		if lk, ok := x.Tuple.(*ssa.Lookup); ok {
+			if ld, ok := ssax.Resolve(lk.X).(*ssa.UnOp); ok && ld.Op == token.MUL {
+				addr = ld.X
+			}
+		} else if nx, ok := x.Tuple.(*ssa.Next); ok && x.Index == 2 {
+			// range over a map field: the value
+			if rg, ok := nx.Iter.(*ssa.Range); ok {
+				if ld, ok := ssax.Resolve(rg.X).(*ssa.UnOp); ok && ld.Op == token.MUL {
+					addr = ld.X
+				}
+			}
+		}
+	default:
+		return "", ""
+	}
+	if ia, ok := addr.(*ssa.IndexAddr); ok {
+		// element of a slice: the slice itself was loaded from a field
+		if ld, ok := ssax.Resolve(ia.X).(*ssa.UnOp); ok && ld.Op == token.MUL {
+			addr = ld.X
+		} else {
+			return "", ""
+		}
+	}
+	fa, ok := addr.(*ssa.FieldAddr)
+	if !ok {
+		return "", ""
+	}
+	pt, ok := fa.X.Type().Underlying().(*types.Pointer)
+	if !ok {
+		return "", ""
+	}
+	nt, ok := pt.Elem().(*types.Named)
+	if !ok || !c18WireTypes(c)[nt.Obj()] {
+		return "", ""
+	}
+	fld := ssax.FieldOf(fa)
+	if fld == nil || !fld.Exported() {
+		return "", ""
+	}
+	return nt.Obj().Name(), fld.Name()
+}
+
+
+// c18LenPreconds: library functions that panic on an argument of the wrong length (checked in their source).
+var c18LenPreconds = []struct {
+	callee   string
+	arg      int
+	want     int64
+	ownStore string
+}{
+	{"crypto/ed25519.Verify", 0, 32, ""},           // panics "ed25519: bad public key length"
+	{"crypto/ed25519.Sign", 0, 64, ".LoadKeys("}, // panics "ed25519: bad private key length"
+}
+
+// proveLenEq: the use lies behind the equal edge of a test len(v) == want.
+func proveLenEq(f *ssa.Function, v ssa.Value, want int64, at ssa.Instruction) (string, string) {
+	vp := npath(v)
+	var edges []ssax.Edge
+	for _, cd := range ssax.Conds(f) {
+		if cd.Op != token.EQL && cd.Op != token.NEQ {
+			continue
+		}
+		for _, pr := range [][2]ssa.Value{{cd.X, cd.Y}, {cd.Y, cd.X}} {
+			la := lenArg(pr[0])
+			if la == nil || npath(la) != vp {
+				continue
+			}
+			if k, ok := ssax.ConstInt(pr[1]); ok && k == want {
+				e, _ := cd.EdgeWhere(token.EQL)
+				edges = append(edges, e)
+			}
+		}
+	}
+	if len(edges) > 0 && !ssax.ReachableAvoiding(f, at, edges, nil) {
+		return "proved", sprintf("dominated by a test len(%s) == %d", trimPath(vp), want)
+	}
+	return "unproved", ""
+}
+
+// provedByValidate: v = R.F[i] for a request value R held in a local of f; the use lies behind the nil edge of a call
+// R.Validate(), and Validate returns nil only past a loop over r.F that rejects a nil element.
+func provedByValidate(c *Ctx, f *ssa.Function, v ssa.Value, at ssa.Instruction) bool {
+	vp := npath(v)
+	i := strings.LastIndex(vp, "[")
+	if i < 0 || !strings.HasSuffix(vp, "]") {
+		return false
+	}
+	list := vp[:i] // e.g. request.Participants
+	j := strings.LastIndex(list, ".")
+	if j < 0 {
+		return false
+	}
+	recvPath, field := list[:j], list[j+1:]
+	for _, call := range ssax.Calls(f, false, func(ci ssa.CallInstruction) bool {
+		o := ssax.CalleeObj(ci)
+		return o != nil && o.Name() == "Validate" && !ci.Common().IsInvoke() && len(ci.Common().Args) == 1
+	}) {
+		if strings.TrimPrefix(npath(call.Common().Args[0]), "&") != recvPath {
+			continue
+		}
+		ne := ssax.NilErrEdgesOfCall(f, call)
+		if len(ne) == 0 || ssax.ReachableAvoiding(f, at, ne, nil) {
+			continue
+		}
+		vf := call.Common().StaticCallee()
+		if vf == nil || len(vf.Params) == 0 {
+			continue
+		}
+		rlist := ssax.Path(vf.Params[0]) + "." + field
+		ok, n := true, 0
+		for _, ret := range ssax.Returns(vf) {
+			if ret.Block() == vf.Recover || len(ret.Results) != 1 {
+				continue
+			}
+			for _, lf := range ssax.Leaves(ret.Results[0], ret) {
+				if !ssax.IsNilConst(lf.V) {
+					if _, isCall := ssax.Resolve(lf.V).(*ssa.Call); !isCall {
+						ok = false // not a fresh error: could be nil
+					}
+					continue
+				}
+				n++
+				if !nilRejectingLoopBefore(vf, rlist, lf.At) {
+					ok = false
+				}
+			}
+		}
+		if ok && n > 0 {
+			return true
+		}
+	}
+	return false
 }
